@@ -51,7 +51,7 @@ from .ast_nodes import (
 )
 from .opcodes import OpCode
 from .values import UNDEFINED
-from .errors import JSError
+from .errors import JSError, JSSyntaxError
 
 
 @dataclass
@@ -655,8 +655,8 @@ class Compiler:
                 self._emit(OpCode.SET_PROP)
                 self._emit(OpCode.POP)  # Pop the result of SET_PROP
             else:
-                raise NotImplementedError(
-                    f"Unsupported for-in left: {type(node.left).__name__}"
+                raise self._syntax_error(
+                    node, f"Unsupported for-in left: {type(node.left).__name__}"
                 )
 
             self._compile_statement(node.body)
@@ -707,8 +707,8 @@ class Compiler:
                     self._emit(OpCode.STORE_NAME, idx)
                 self._emit(OpCode.POP)
             else:
-                raise NotImplementedError(
-                    f"Unsupported for-of left: {type(node.left).__name__}"
+                raise self._syntax_error(
+                    node, f"Unsupported for-of left: {type(node.left).__name__}"
                 )
 
             self._compile_statement(node.body)
@@ -747,9 +747,9 @@ class Compiler:
 
             if ctx is None:
                 if target_label:
-                    raise SyntaxError(f"label '{target_label}' not found")
+                    raise self._syntax_error(node, f"label '{target_label}' not found")
                 else:
-                    raise SyntaxError("'break' outside of loop")
+                    raise self._syntax_error(node, "'break' outside of loop")
 
             # Leave every construct between here and the target, and the target itself
             self._emit_unwind(ctx, leave_target=True)
@@ -770,8 +770,8 @@ class Compiler:
 
             if ctx is None:
                 if target_label:
-                    raise SyntaxError(f"label '{target_label}' not found")
-                raise SyntaxError("'continue' outside of loop")
+                    raise self._syntax_error(node, f"label '{target_label}' not found")
+                raise self._syntax_error(node, "'continue' outside of loop")
 
             # Leave every construct between here and the target loop
             self._emit_unwind(ctx, leave_target=False)
@@ -957,8 +957,8 @@ class Compiler:
             self.loop_stack.pop()
 
         else:
-            raise NotImplementedError(
-                f"Cannot compile statement: {type(node).__name__}"
+            raise self._syntax_error(
+                node, f"Cannot compile statement: {type(node).__name__}"
             )
 
     def _compile_statement_for_value(self, node: Node) -> None:
@@ -1252,6 +1252,14 @@ class Compiler:
 
         return func
 
+    @staticmethod
+    def _syntax_error(node: Node, message: str) -> JSSyntaxError:
+        """A construct the compiler rejects: a SyntaxError located at the construct."""
+        loc = getattr(node, "loc", None)
+        if loc is not None and loc.line:
+            return JSSyntaxError(message, loc.line, loc.column)
+        return JSSyntaxError(message)
+
     # ---- Expressions ----
 
     def _compile_named_value(self, node: Node, name: str) -> None:
@@ -1411,7 +1419,7 @@ class Compiler:
                 if node.operator in op_map:
                     self._emit(op_map[node.operator])
                 else:
-                    raise NotImplementedError(f"Unary operator: {node.operator}")
+                    raise self._syntax_error(node, f"Unary operator: {node.operator}")
 
         elif isinstance(node, UpdateExpression):
             # ++x or x++
@@ -1519,7 +1527,7 @@ class Compiler:
                     self._emit(OpCode.SET_PROP)  # [old_value, new_value]
                     self._emit(OpCode.POP)  # [old_value]
             else:
-                raise NotImplementedError("Update expression on non-identifier")
+                raise self._syntax_error(node, "Update expression on non-identifier")
 
         elif isinstance(node, BinaryExpression):
             self._compile_expression(node.left)
@@ -1551,7 +1559,7 @@ class Compiler:
             if node.operator in op_map:
                 self._emit(op_map[node.operator])
             else:
-                raise NotImplementedError(f"Binary operator: {node.operator}")
+                raise self._syntax_error(node, f"Binary operator: {node.operator}")
 
         elif isinstance(node, LogicalExpression):
             self._compile_expression(node.left)
@@ -1734,6 +1742,6 @@ class Compiler:
             self._emit(OpCode.MAKE_CLOSURE, func_idx)
 
         else:
-            raise NotImplementedError(
-                f"Cannot compile expression: {type(node).__name__}"
+            raise self._syntax_error(
+                node, f"Cannot compile expression: {type(node).__name__}"
             )
